@@ -87,6 +87,34 @@ def r1(ctx):
             ctx.check("ExecutionManager::run:%s" % kind, okc,
                       "the client call made is client.%s_order(indexer.order_request(&that same request))" % kind, sites=[t["sp"]],
                       got=render(client_fut)[:160], key="client-call")
+            # every (non-panicking) path from the arm's entry back to the loop head passes the push: an accepted request is
+            # never silently skipped
+            heads = {x for x in b.reachable if b.blocks[x]["term"]["t"] == "false_unwind"}
+            starts = []
+            for x in b.reachable:
+                tt = b.blocks[x]["term"]
+                if tt["t"] == "switch":
+                    for lab, y in b.succ[x]:
+                        a = b.edge_atom(x, lab)
+                        if a[0] == "is" and a[2] == frozenset([variant]) and render(a[1]).endswith(".as:_0.0.as:Some.0"):
+                            starts.append(y)
+            skipped = set()
+            for y in starts:
+                if y == bi:
+                    continue
+                seen, stack = set(), [y]
+                while stack:
+                    z = stack.pop()
+                    if z in seen or z == bi:
+                        continue
+                    seen.add(z)
+                    if z in heads or z == mir.EXIT:
+                        skipped.add(z)
+                        continue
+                    stack.extend(w for _, w in b.succ[z])
+            ctx.check("ExecutionManager::run:%s" % kind, bool(starts) and not skipped,
+                      "every accepted %s request is tracked (no path from the intake arm back to the loop skips the push)" % kind,
+                      sites=[t["sp"]], got=sorted(skipped), key="never-skipped")
             # every non-panicking path of the arm reaches the push: guard = request is Some(variant)
             g = b.guard(bi)
             arm = [a for conj in g for a in conj if a[0] == "is" and a[2] == frozenset([variant])]
